@@ -143,6 +143,8 @@ def run(spec0, rep, steps, tol=1e-9, direct=True):
                 if d > 1e-7 * sc:
                     msgs.append("optimize(tol=1e-10): the optimum of the %s description differs at vertex id %r by %.3g (%d vs %d iterations)" % (rep.name, v["id"], d, rB.num_iterations, rA.num_iterations))
                     break
-        if not msgs and not abs(rB.final_chi2 - rep.chi_factor * rA.final_chi2) <= 1e-6 * (abs(rep.chi_factor * rA.final_chi2) + 1e-12 * rep.chi_factor):
+        om_max = max([abs(x) for e in spec0["edges"] for r in e["om"] for x in r] or [1.0])
+        floor = 1e4 * len(spec0["edges"]) * om_max * (2.2e-16 * sc) ** 2 * rep.chi_factor  # chi2 of a noise-free optimum is rounding noise ~ (eps x coordinate scale)^2
+        if not msgs and not abs(rB.final_chi2 - rep.chi_factor * rA.final_chi2) <= 1e-6 * abs(rep.chi_factor * rA.final_chi2) + floor:
             msgs.append("optimize(tol=1e-10): final_chi2 of the %s description is %.17g, expected %g x %.17g" % (rep.name, rB.final_chi2, rep.chi_factor, rA.final_chi2))
     return msgs, info
